@@ -202,13 +202,18 @@ def m_sort(v: MVal, terms, pref=None, backtrack=True) -> MVal:
     sqlr = _sqlrules(v, pref, backtrack)
     total = sort_total(v.up(), v.cols, terms)
     scols = frozenset().union(*[expr_cols(e) for e, _ in terms])
+    # In the SQL engine a sort applied while the root SELECT still carries an earlier (total) sort and no slice is
+    # merged into the same ORDER BY (new terms first), which is exactly a stable sort of an ordered list.
+    merged = is_sql(v.engine) and v.sql_state == "sorted" and v.order_det
     if sqlr:
-        od = total
+        od = total or merged
     else:
         od = total or v.order_det
+    if merged and not total:
+        scols = scols | v.sort_cols
     return v.derive(
         rows=_sorted(v.rows, terms), upper=None if v.upper is None else _sorted(v.upper, terms),
-        order_det=od, sql_state=("sorted" if (total and is_sql(v.engine)) else None), sort_cols=scols,
+        order_det=od, sql_state=("sorted" if ((total or merged) and is_sql(v.engine)) else None), sort_cols=scols,
         pending_sort=is_sql(v.engine), hist=("sort", v.hist, _t(terms)),
     )
 
